@@ -3,8 +3,10 @@
 (* part of C04, C13).  own[i][k] = the item whose (value, hash) pair bin k of      *)
 (* instance i holds, 0 = empty.  Header of a run: alg, m, ninst and the measured   *)
 (* table tab[x] = <<bin, rank of the value>> of every item.                        *)
-(*   sk  : the item's pair replaces the bin's pair iff its value is <= (as the     *)
-(*         code does, also on a finished sketch);                                  *)
+(*   sk  : the item's pair replaces the bin's pair iff its value is smaller; on an  *)
+(*         exact tie of the values either pair may stay (the rule is the code's    *)
+(*         business) - but the choice must be a function of the SET streamed into  *)
+(*         the instance, not of the order (smap), which is what C04 demands;       *)
 (*   en  : R1 populated bins untouched, R2 every empty bin receives the pair of a  *)
 (*         bin that was populated before the call, R6 nothing changes when no bin  *)
 (*         is empty, and on a sketch that received nothing the call must FAIL      *)
@@ -20,18 +22,27 @@ EXTENDS Integers, Sequences, FiniteSets, TLC, Json, IOUtils
 
 Rec == ndJsonDeserialize(IOEnv.TRACE)
 
-VARIABLES l, h, own, dmap, umap
-vars == <<l, h, own, dmap, umap>>
+VARIABLES l, h, own, dmap, umap, sets, smap
+vars == <<l, h, own, dmap, umap, sets, smap>>
 
 Has(r, f) == f \in DOMAIN r
 Bins == 1..h.m
 BinOf(x) == h.tab[x][1]
 ValOf(x) == h.tab[x][2]
 
+(* the possible owner vectors after streaming x: both outcomes on an exact tie between different items *)
 SkOne(o, x) == LET b == BinOf(x) IN
-               IF o[b] = 0 \/ ValOf(x) <= ValOf(o[b]) THEN [o EXCEPT ![b] = x] ELSE o
+               IF o[b] = 0 \/ ValOf(x) < ValOf(o[b]) THEN {[o EXCEPT ![b] = x]}
+               ELSE IF ValOf(x) = ValOf(o[b]) /\ o[b] # x THEN {o, [o EXCEPT ![b] = x]}
+               ELSE {o}
 RECURSIVE SkSeq(_, _)
-SkSeq(o, xs) == IF xs = <<>> THEN o ELSE SkSeq(SkOne(o, Head(xs)), Tail(xs))
+SkSeq(os, xs) == IF xs = <<>> THEN os ELSE SkSeq(UNION {SkOne(o, Head(xs)) : o \in os}, Tail(xs))
+Range(s) == {s[k] : k \in 1..Len(s)}
+(* set semantics (C04): while an instance has not been finished since its last reinit, its owners are a function
+   of the set of items streamed into it; sets[i] = <<clean, set>> *)
+SetOK(i, S, o) == sets[i][1] => (S \in DOMAIN smap => smap[S] = o)
+SmapNext(i, S, o) == IF sets[i][1] /\ S \notin DOMAIN smap
+                     THEN [T \in DOMAIN smap \cup {S} |-> IF T = S THEN o ELSE smap[T]] ELSE smap
 
 NbEmpty(o) == Cardinality({k \in Bins : o[k] = 0})
 Sources(o) == {o[k] : k \in Bins} \ {0}
@@ -58,7 +69,7 @@ UmapNext(r, o) == IF NbEmpty(o) = 0 /\ Has(r, "v32")
                           IF x \in DOMAIN umap THEN umap[x] ELSE r.v32[CHOOSE k \in Bins : o[k] = x]]
                   ELSE umap
 
-TraceInit == l = 2 /\ h = [m |-> 0] /\ own = <<>> /\ dmap = <<>> /\ umap = <<>>
+TraceInit == l = 2 /\ h = [m |-> 0] /\ own = <<>> /\ dmap = <<>> /\ umap = <<>> /\ sets = <<>> /\ smap = <<>>
 
 IsEvent(e) == l <= Len(Rec) /\ Rec[l].op = e /\ l' = l + 1
 
@@ -66,11 +77,15 @@ New == /\ IsEvent("new")
        /\ h' = Rec[l]
        /\ own' = [i \in 1..Rec[l].ninst |-> [k \in 1..Rec[l].m |-> 0]]
        /\ dmap' = <<>> /\ umap' = <<>>
+       /\ sets' = [i \in 1..Rec[l].ninst |-> <<TRUE, {}>>] /\ smap' = <<>>
 
 Sketch == /\ IsEvent("sk")
-          /\ LET r == Rec[l]  o == SkOne(own[r.i], r.x)
-             IN /\ r.out = "ok" /\ ObsOK(r, o)
+          /\ LET r == Rec[l]  S == sets[r.i][2] \cup {r.x} IN
+             \E o \in SkOne(own[r.i], r.x) :
+                /\ r.out = "ok" /\ ObsOK(r, o) /\ SetOK(r.i, S, o)
                 /\ own' = [own EXCEPT ![r.i] = o] /\ umap' = UmapNext(r, o)
+                /\ smap' = SmapNext(r.i, S, o)
+                /\ sets' = [sets EXCEPT ![r.i] = <<@[1], S>>]
           /\ UNCHANGED <<h, dmap>>
 
 (* densification of pre as shown by event r; returns TRUE and binds the next state *)
@@ -87,18 +102,27 @@ Densify(r, pre) ==
      /\ dmap' = [p \in DOMAIN dmap \cup {pre} |-> IF p = pre THEN post ELSE dmap[p]]
      /\ umap' = UmapNext(r, post)
 
+(* a finishing call that really densifies ends the "clean" phase of the instance *)
+Finished(i, pre) == [sets EXCEPT ![i] = <<@[1] /\ (NbEmpty(pre) = 0 \/ NbEmpty(pre) = h.m), @[2]>>]
+
 End == /\ IsEvent("en")
        /\ Densify(Rec[l], own[Rec[l].i])
-       /\ UNCHANGED h
+       /\ sets' = Finished(Rec[l].i, own[Rec[l].i]) /\ UNCHANGED <<h, smap>>
 
 Slice == /\ IsEvent("sl")
-         /\ Densify(Rec[l], SkSeq(own[Rec[l].i], Rec[l].xs))
+         /\ LET r == Rec[l]  S == sets[r.i][2] \cup Range(r.xs) IN
+            \E pre \in SkSeq({own[r.i]}, r.xs) :
+               /\ SetOK(r.i, S, pre)
+               /\ Densify(r, pre)
+               /\ smap' = SmapNext(r.i, S, pre)
+               /\ sets' = [Finished(r.i, pre) EXCEPT ![r.i] = <<@[1], S>>]
          /\ UNCHANGED h
 
 Reinit == /\ IsEvent("re")
           /\ LET r == Rec[l]  o == [k \in Bins |-> 0]
              IN /\ r.out = "ok" /\ ObsOK(r, o) /\ own' = [own EXCEPT ![r.i] = o]
-          /\ UNCHANGED <<h, dmap, umap>>
+                /\ sets' = [sets EXCEPT ![r.i] = <<TRUE, {}>>]
+          /\ UNCHANGED <<h, dmap, umap, smap>>
 
 TraceNext == New \/ Sketch \/ End \/ Slice \/ Reinit
 TraceSpec == TraceInit /\ [][TraceNext]_vars
